@@ -67,7 +67,28 @@ func tagKeys(tag string) []string {
 	return keys
 }
 
+// check verifies the case and then, in the same process, its look-alike: the map in which the
+// first two (sorted) pairs are folded into one value the way fmt prints a map (`k0:v0 k1:v1`), and
+// the case again. A rendering must depend on the map's content, not on what it looks like printed.
 func check(c Case) error {
+	if err := check1(c); err != nil {
+		return err
+	}
+	if len(c.Tag) >= 2 {
+		kvs := append([]recipe.TagKV{}, c.Tag...)
+		sort.Slice(kvs, func(i, j int) bool { return kvs[i].K < kvs[j].K })
+		folded := Case{Tag: append([]recipe.TagKV{{K: kvs[0].K, V: kvs[0].V + " " + kvs[1].K + ":" + kvs[1].V}}, kvs[2:]...)}
+		if err := check1(folded); err != nil {
+			return fmt.Errorf("after rendering %s, its look-alike %s: %v", recipe.JSON(c.Tag), recipe.JSON(folded.Tag), err)
+		}
+		if err := check1(c); err != nil {
+			return fmt.Errorf("after rendering its look-alike %s: %v", recipe.JSON(folded.Tag), err)
+		}
+	}
+	return nil
+}
+
+func check1(c Case) error {
 	// struct { F string <tag> } rendered raw
 	st := recipe.S().C("Type").C("Id", "T").C("Struct", field(c))
 	text, err := litx.RenderStmt(st, nil)
